@@ -36,6 +36,8 @@ func validateArrayAndVectorDimensions(env *Environment, errorSink *validation.Er
 				if (notNullLengthCount > 0) == (nullLengthCount > 0) {
 					errorSink.Add(validationError(node, "lengths must either be specified on all dimensions or none of them"))
 				}
+			} else if t.Dimensions != nil {
+				errorSink.Add(validationError(node, "an array must have at least one dimension; omit `dimensions` for an array with an unknown number of dimensions"))
 			}
 		}
 
